@@ -286,6 +286,10 @@ func (it *indexedMessageIterator) loadChunk(chunkIndex *ChunkIndex) error {
 	}
 	switch CompressionFormat(parsedChunk.Compression) {
 	case CompressionNone:
+		if uint64(len(parsedChunk.Records)) != bufSize {
+			return fmt.Errorf("chunk holds %d bytes of records but declares an uncompressed size of %d",
+				len(parsedChunk.Records), bufSize)
+		}
 		copy(chunkSlot.buf, parsedChunk.Records)
 	case CompressionZSTD:
 		if it.zstdDecoder == nil {
@@ -299,6 +303,13 @@ func (it *indexedMessageIterator) loadChunk(chunkIndex *ChunkIndex) error {
 		chunkSlot.buf, err = it.zstdDecoder.DecodeAll(parsedChunk.Records, chunkSlot.buf[:0])
 		if err != nil {
 			return fmt.Errorf("failed to decode chunk data: %w", err)
+		}
+		// The record walk below covers bufSize bytes. A chunk that decodes to fewer bytes than
+		// its header declares would make it run into whatever an earlier chunk left in a
+		// reused slot (stale messages, and offsets past the end of the slice).
+		if uint64(len(chunkSlot.buf)) != bufSize {
+			return fmt.Errorf("chunk decompressed to %d bytes but declares an uncompressed size of %d",
+				len(chunkSlot.buf), bufSize)
 		}
 	case CompressionLZ4:
 		if it.lz4Reader == nil {
